@@ -74,6 +74,7 @@ var locAccessors = map[string][]string{
 var mergedAccessors = []string{"Form", "FormValue", "DefaultQuery", "Bind", "ShouldBind", "BodyParser", "AllParams"}
 
 func checkC05(c *Ctx, r *Report) {
+	defer func() { ruleRegexInventory(c, r, "C05.a", "core/metadata", "core/annotations") }()
 	r.NotDecided = append(r.NotDecided, "value round-tripping through five HTTP frameworks (header canonicalisation, percent-decoding, integer widths beyond the strconv bit size spelled in the template)", "the conversion switch beyond arm coverage and bit sizes")
 	r.Assume = append(r.Assume, "accessor vocabularies per location are enumerated from the five engines' current templates (tables in the checker); identifiers are matched by spelling in template Go text")
 
